@@ -29,4 +29,8 @@ EXTRAS = [
     lambda rep, fb, tier: __import__("vf.rules.lints", fromlist=["x"]).rule_call_roles(rep, fb),
     lambda rep, fb, tier: __import__("vf.rules.lints2", fromlist=["x"]).rule_rebased_copy(rep, fb),
     lambda rep, fb, tier: __import__("vf.rules.lints3", fromlist=["x"]).rule_offsets_first(rep, fb),
+    lambda rep, fb, tier: __import__("vf.rules.pyrules3", fromlist=["x"]).rule_py_unused_local(rep),
+    lambda rep, fb, tier: __import__("vf.rules.pyrules3", fromlist=["x"]).rule_py_raw_axis(rep),
+    lambda rep, fb, tier: __import__("vf.rules.pyrules3", fromlist=["x"]).rule_py_transform_returns(rep),
+    lambda rep, fb, tier: __import__("vf.rules.pyrules3", fromlist=["x"]).rule_py_searchsorted_siblings(rep),
 ]
